@@ -65,8 +65,8 @@ var c16Shared = map[string]string{
 	"use6.p": "use(\"lib2.p\")\nuse(\"lib2.p\")\nuse(\"lib2.p\")\nuse(\"lib2.p\")\nuse(\"lib2.p\")\nuse(\"use5.p\")\n",
 	// one zone per point value: the first use of each zone happens inside the concurrent phase
 	"zones.p": c16ZoneScript(),
-	"lib2.p": "add_key(from_lib2, len(\"héllo\"))\nfor i = 0; i < 3; i = i + 1 {\n  add_key(cnt, i)\n}\n",
-	"mix.p":  "xml(doc, \"/a/b\", xb)\nsql_cover(q)\ndefault_time(ts, \"Asia/Tokyo\")\nj = load_json(js)\nadd_key(jl, len(j[\"a\"]))\nl = [1, 2, 3, 4, 5]\nadd_key(sl, l[::-2])\ns = \"\"\nfor e in j[\"a\"] {\n  if e == 2 { continue }\n  s = s + \"x\"\n}\nadd_key(s)\nuppercase(verb)\ntrim(pad)\nurl_decode(u)\ncast(n, \"float\")\nset_tag(host)\nrename(renamed, msg2)\nstrfmt(f, \"%v-%s\", 1, verb)\n",
+	"lib2.p":  "add_key(from_lib2, len(\"héllo\"))\nfor i = 0; i < 3; i = i + 1 {\n  add_key(cnt, i)\n}\n",
+	"mix.p":   "xml(doc, \"/a/b\", xb)\nsql_cover(q)\ndefault_time(ts, \"Asia/Tokyo\")\nj = load_json(js)\nadd_key(jl, len(j[\"a\"]))\nl = [1, 2, 3, 4, 5]\nadd_key(sl, l[::-2])\ns = \"\"\nfor e in j[\"a\"] {\n  if e == 2 { continue }\n  s = s + \"x\"\n}\nadd_key(s)\nuppercase(verb)\ntrim(pad)\nurl_decode(u)\ncast(n, \"float\")\nset_tag(host)\nrename(renamed, msg2)\nstrfmt(f, \"%v-%s\", 1, verb)\n",
 }
 
 func c16Point(r *rand.Rand) (*input.Point, string) {
@@ -272,7 +272,12 @@ func (k c16) Run(c *mon.Ctx, workload string, i int64) {
 					case op == 3:
 						note(1)
 						atomic.AddInt32(&inflight[1], 1)
-						cl, ck := drive.V1Funcs()
+						// a reload of the very same set: alternately with the function
+						// tables the shared set was loaded with and with fresh ones
+						cl, ck := call, check
+						if r.Intn(2) == 0 {
+							cl, ck = drive.V1Funcs()
+						}
 						okS, errS := engine.ParseScript(c16Shared, cl, ck)
 						atomic.AddInt32(&inflight[1], -1)
 						if len(errS) > 0 || len(okS) != len(c16Shared) {
